@@ -111,6 +111,8 @@ structure Shape (p : Pool) : Prop where
   nofault : p.fault = false
   relslots : p.released = true → p.slots = []
   nofreed : p.released = false → p.freed = []
+  /-- ring: the tail has advanced by exactly the number of resets since the initial `commit(n)` -/
+  tailres : p.kind = .ring → p.tail = p.n + p.resets
 
 structure PoolInv (p : Pool) (cs ch : Nat → Nat) (ls lh : Nat) : Prop where
   shape : Shape p
@@ -196,7 +198,7 @@ theorem PoolInv.takeSel {p cs ch ls lh} (h : PoolInv p cs ch ls lh) (hr : p.rele
   refine ⟨by simp [Pool.slotTake, hs], ?_⟩
   have hc := h.cnt b
   rw [if_pos hlt] at hc
-  refine ⟨⟨h.shape.npos, h.shape.pow, ?_, h.shape.elen, h.shape.ht, h.shape.nofault, ?_, h.shape.nofreed⟩, ?_, ?_, ?_, ?_⟩
+  refine ⟨⟨h.shape.npos, h.shape.pow, ?_, h.shape.elen, h.shape.ht, h.shape.nofault, ?_, h.shape.nofreed, h.shape.tailres⟩, ?_, ?_, ?_, ?_⟩
   · intro _; simpa using h.shape.slen hr
   · intro h'; simp [hr] at h'
   · intro id
@@ -271,7 +273,7 @@ theorem PoolInv.dropHeld {p cs ch ls lh} (h : PoolInv p cs ch ls lh) (hr : p.rel
   have hslots : (dropRefResult p b).slots = p.slots.set b (some b) := by cases hk : p.kind <;> simp [dropRefResult, hk]
   have hfreed : (dropRefResult p b).freed = p.freed := by cases hk : p.kind <;> simp [dropRefResult, hk]
   have hres : (dropRefResult p b).resets = p.resets + 1 := by cases hk : p.kind <;> simp [dropRefResult, hk]
-  refine ⟨hrel, hkind, hn, hfree, hres, ⟨⟨?_, ?_, ?_, ?_, ?_, ?_, ?_, ?_⟩, ?_, ?_, ?_, ?_⟩⟩
+  refine ⟨hrel, hkind, hn, hfree, hres, ⟨⟨?_, ?_, ?_, ?_, ?_, ?_, ?_, ?_, ?_⟩, ?_, ?_, ?_, ?_⟩⟩
   · rw [hn]; exact h.shape.npos
   · rw [hn]; exact h.shape.pow
   · intro _; rw [hslots, hn]; simpa using hl
@@ -289,6 +291,11 @@ theorem PoolInv.dropHeld {p cs ch ls lh} (h : PoolInv p cs ch ls lh) (hr : p.rel
     · simp only [dropRefResult, hk]; exact h.shape.nofault
   · intro h'; rw [hrel] at h'; cases h'
   · intro _; rw [hfreed]; exact h.shape.nofreed hr
+  · intro hk'
+    rw [hkind] at hk'
+    have := h.shape.tailres hk'
+    simp only [dropRefResult, hk']
+    omega
   · intro id
     rw [hfree, hfreed, hn, List.count_append, count_singleton_ind]
     have := h.cnt id; have := hch id
@@ -361,7 +368,7 @@ theorem PoolInv.selectRing {p cs ch ls lh} (h : PoolInv p cs ch ls lh) (hr : p.r
         simp [Pool.freeIds, hr, hk, Pool.window, win]
       have hfree : p.freeIds = p.entries.getD (p.head % 65536 % p.n) 0 :: win p.entries p.n (p.head + 1) (p.tail - (p.head + 1)) := by
         rw [freeIds_ring hr hk]; exact hwin
-      refine ⟨⟨h.shape.npos, h.shape.pow, h.shape.slen, h.shape.elen, ?_, h.shape.nofault, h.shape.relslots, h.shape.nofreed⟩, ?_, ?_, ?_, ?_⟩
+      refine ⟨⟨h.shape.npos, h.shape.pow, h.shape.slen, h.shape.elen, ?_, h.shape.nofault, h.shape.relslots, h.shape.nofreed, h.shape.tailres⟩, ?_, ?_, ?_, ?_⟩
       · show p.head + 1 ≤ p.tail; omega
       · intro id
         have := h.cnt id
@@ -412,7 +419,7 @@ theorem PoolInv.popFb {p cs ch ls lh} (h : PoolInv p cs ch ls lh) (hr : p.releas
     have hfree' : ({ p with queue := rest, slots := p.slots.set b none } : Pool).freeIds = rest := by
       simp [Pool.freeIds, hr, hk]
     have hl : p.slots.length = p.n := h.shape.slen hr
-    refine ⟨⟨h.shape.npos, h.shape.pow, ?_, h.shape.elen, h.shape.ht, h.shape.nofault, ?_, h.shape.nofreed⟩, ?_, ?_, ?_, ?_⟩
+    refine ⟨⟨h.shape.npos, h.shape.pow, ?_, h.shape.elen, h.shape.ht, h.shape.nofault, ?_, h.shape.nofreed, h.shape.tailres⟩, ?_, ?_, ?_, ?_⟩
     · intro _; show (p.slots.set b none).length = p.n; simpa using hl
     · intro h'; have : p.released = true := h'; rw [hr] at this; cases this
     · intro id
@@ -446,7 +453,7 @@ theorem PoolInv.dropHeldReleased {p cs ch ls lh} (h : PoolInv p cs ch ls lh) (hr
     {ch' : Nat → Nat} (hch : ∀ id, ch' id + ind b id = ch id) (lh' : Nat) :
     PoolInv { p with freed := p.freed ++ [b] } cs ch' ls lh' := by
   have hfree : ({ p with freed := p.freed ++ [b] } : Pool).freeIds = p.freeIds := rfl
-  refine ⟨⟨h.shape.npos, h.shape.pow, ?_, h.shape.elen, h.shape.ht, h.shape.nofault, h.shape.relslots, ?_⟩, ?_, ?_, ?_, h.relsel⟩
+  refine ⟨⟨h.shape.npos, h.shape.pow, ?_, h.shape.elen, h.shape.ht, h.shape.nofault, h.shape.relslots, ?_, h.shape.tailres⟩, ?_, ?_, ?_, h.relsel⟩
   · intro h'; have : p.released = false := h'; rw [hr] at this; cases this
   · intro h'; have : p.released = false := h'; rw [hr] at this; cases this
   · intro id
@@ -1495,6 +1502,317 @@ theorem Live.terminalItem {w : World} {k : PKind} (h : Live w k) (i : Nat) (s : 
           rw [hsop', hsopb]
           simp only [List.length_append, List.length_cons, List.length_nil] at *
           omega
+
+
+theorem getElem?_set_self' {α : Type} (l : List α) (i : Nat) (x y : α) (h : l[i]? = some y) :
+    (l.set i x)[i]? = some x := by
+  have : i < l.length := by
+    rcases Nat.lt_or_ge i l.length with h1 | h1
+    · exact h1
+    · rw [List.getElem?_eq_none h1] at h; cases h
+  simp [this]
+
+theorem Src.mop_none_of_op0 {s : Src} {st : Strm} (hs : s.strm = some st)
+    (h0 : (match st.op with | some (some m) => some m | _ => none : Option MOp) = none) : s.mop = none := by
+  unfold Src.mop
+  rw [hs]
+  obtain ⟨len, op⟩ := st
+  cases op with
+  | none => rfl
+  | some o =>
+    cases o with
+    | none => rfl
+    | some m => simp at h0
+
+theorem Src.strm_of_op0 {s : Src} {st : Strm} {m : MOp} (hs : s.strm = some st)
+    (h0 : (match st.op with | some (some m) => some m | _ => none : Option MOp) = some m) :
+    s.strm = some { len := st.len, op := some (some m) } := by
+  rw [hs]
+  obtain ⟨len, op⟩ := st
+  cases op with
+  | none => simp at h0
+  | some o =>
+    cases o with
+    | none => simp at h0
+    | some m' =>
+      simp only [Option.some.injEq] at h0
+      subst h0; rfl
+
+theorem Inv.evNext {w : World} (h : Inv w) (i : Nat) : Inv (evNext w i).1 := by
+  unfold Pool.evNext
+  split
+  · exact h
+  · rename_i s hv
+    obtain ⟨hr, hget⟩ := validSrc_some hv
+    split
+    · exact h
+    · rename_i st hs
+      simp only
+      split
+      · -- no op inside the stream: create one
+        rename_i h0
+        have hmop : s.mop = none := Src.mop_none_of_op0 hs h0
+        have hsel : s.selIds = [] := by simp [Src.selIds, hmop, mopSel]
+        have hsop : s.opIds = futBuf s.fut := by simp [Src.opIds, hmop, mopBuf]
+        split
+        · rename_i hk
+          have hl0 : Live (w.setSrc i { s with strm := some { len := st.len, op := some (some { submitted := true, guards := [], buf := none, fin := none }) } }) .ring := by
+            refine ⟨h.of_sameTok (sameTok_setSrc w i s _ hget ?_ ?_) rfl h.2.1 ?_, hr, hk⟩
+            · rw [hsel]; rfl
+            · rw [hsop]; simp [Src.opIds, Src.mop, mopBuf]
+            · intro hr'; rw [hr] at hr'; cases hr'
+          exact (hl0.kick i true).1
+        · rename_i hk
+          cases hq : w.pool.queue with
+          | nil =>
+            rw [((h.1.popFb hr hk).1 hq)]
+            simp only
+            refine h.of_sameTok (sameTok_setSrc w i s _ hget ?_ ?_) rfl h.2.1 ?_
+            · rw [hsel]; rfl
+            · rw [hsop]; simp [Src.opIds, Src.mop, mopBuf]
+            · intro hr'; rw [hr] at hr'; cases hr'
+          | cons b rest =>
+            obtain ⟨hpop, htake, _⟩ := (h.1.popFb hr hk).2 b rest hq
+            rw [hpop]
+            simp only [htake]
+            have hlw : Live w .fb := ⟨h, hr, hk⟩
+            split
+            · -- pipe
+              have hl0 := hlw.popInto i s hget b rest hq
+                { s with strm := some { len := st.len, op := some (some { submitted := true, guards := [], buf := some b, fin := none }) } }
+                (by rw [hsel]; rfl)
+                (by intro a; rw [hsop]; show (futBuf s.fut ++ [b]).count a = _
+                    rw [List.count_append, count_singleton_ind])
+                (by rw [hsop]; show (futBuf s.fut ++ [b]).length = _
+                    simp only [List.length_append, List.length_cons, List.length_nil])
+              exact (hl0.kick i true).1
+            · -- sockets: the op may complete inside `push`
+              obtain ⟨hg, hb, hfut⟩ := fbMulti_spec st.len w.buflen s
+                { submitted := true, guards := [], buf := some b, fin := none }
+              generalize fbMulti st.len w.buflen s { submitted := true, guards := [], buf := some b, fin := none } = res at *
+              obtain ⟨s2, m2⟩ := res
+              simp only at hg hb hfut ⊢
+              have hl0 := hlw.popInto i s hget b rest hq
+                { s2 with strm := some { len := st.len, op := some (some m2) } }
+                (by rw [hsel]; simp [Src.selIds, Src.mop, mopSel, hg])
+                (by intro a; rw [hsop]
+                    show (futBuf s2.fut ++ mopBuf (some m2)).count a = _
+                    rw [hfut]; simp only [mopBuf, hb, Option.toList, List.count_append, count_singleton_ind])
+                (by rw [hsop]
+                    show (futBuf s2.fut ++ mopBuf (some m2)).length = _
+                    rw [hfut]; simp only [mopBuf, hb, Option.toList, List.length_append, List.length_cons, List.length_nil])
+              split
+              · exact hl0.terminalItem i _ st.len st.len m2 _ (getElem?_set_self' _ _ _ _ hget) rfl
+              · exact hl0.1
+      · -- an op is running
+        rename_i m h0
+        have hs' := Src.strm_of_op0 hs h0
+        have hmop : s.mop = some m := Src.mop_of_strm hs'
+        have hlw : Live w w.pool.kind := h.live hr
+        split
+        · rename_i k b rest hg
+          have hsel : s.selIds = b :: rest.map (·.2) := by simp [Src.selIds, hmop, mopSel, hg]
+          have hsop : s.opIds = futBuf s.fut ++ mopBuf (some m) := by simp [Src.opIds, hmop]
+          let s' : Src := { s with strm := some { len := st.len, op := some (some { m with guards := rest }) } }
+          have hsel' : s'.selIds = rest.map (·.2) := by simp [Src.selIds, Src.mop, mopSel, s']
+          have hsop' : s'.opIds = s.opIds := by rw [hsop]; simp [Src.opIds, Src.mop, mopBuf, s']
+          have hb : 0 < w.cs b := w.cs_pos_of_sel i s hget (by rw [hsel]; simp)
+          have hcge := w.cs_ge i s hget
+          have hlsge := w.ls_ge i s hget
+          have hoge := w.op_ge i s hget
+          have hlhge := w.lh_ge i s hget
+          obtain ⟨htake, hp1⟩ := h.1.takeSel hr hb
+            (cs' := fun a => w.cs a + s'.selIds.count a - s.selIds.count a)
+            (ch' := fun a => w.ch a + ind b a) (ls' := w.selIds.length + s'.selIds.length - s.selIds.length)
+            (lh' := w.opIds.length + w.handles.length + 1)
+            (by intro a; have := hcge a; rw [hsel', hsel] at *; simp only [count_cons_ind] at *; omega)
+            (fun _ => rfl)
+            (by rw [hsel', hsel] at *; simp only [List.length_cons] at *; omega)
+            rfl
+          rw [htake]
+          simp only
+          split
+          · -- empty buffer: dropped at once
+            have hr1 : ({ w.pool with slots := w.pool.slots.set b none } : Pool).released = false := hr
+            have h3 := hp1.dropHeld hr1 (b := b) (by simp [ind_self])
+              (ch' := fun a => w.opIds.count a + s'.opIds.count a - s.opIds.count a + w.handles.count a)
+              (lh' := w.opIds.length + s'.opIds.length - s.opIds.length + w.handles.length)
+              (by intro a; have := hoge a; rw [hsop']; simp only [World.ch]; omega)
+              (by rw [hsop']; omega)
+            exact Inv.mkSet (w := w) i s s' _ w.handles hget h.2.1 h3.1 h3.2.2.2.2.2
+          · refine Inv.mkSet (w := w) i s s' _ (w.handles ++ [b]) hget h.2.1 hr (hp1.congr (fun _ => rfl) ?_ rfl ?_)
+            · intro a; have := hoge a; rw [hsop', List.count_append, count_singleton_ind]; simp only [World.ch]; omega
+            · rw [hsop']; simp only [List.length_append, List.length_cons, List.length_nil]; omega
+        · split
+          · exact h
+          · exact hlw.terminalItem i s st.len st.len m _ hget hs'
+
+/-- the multishot op `m` of source `i` is dropped as a whole (`inner.buffer` first, then the guards) -/
+theorem Live.dropMOp {w : World} {k : PKind} (h : Live w k) (i : Nat) (s s' : Src) (len0 : Nat) (m : MOp)
+    (hget : w.srcs[i]? = some s) (hs : s.strm = some { len := len0, op := some (some m) })
+    (hs' : s'.mop = none) (hfut : s'.fut = s.fut) :
+    Live ({ w with pool := w.pool.dropMOp m }.setSrc i s') k := by
+  have hmop : s.mop = some m := Src.mop_of_strm hs
+  have hsel : s.selIds = m.guards.map (·.2) := by simp [Src.selIds, hmop, mopSel]
+  have hsop : s.opIds = futBuf s.fut ++ m.buf.toList := by simp [Src.opIds, hmop, mopBuf]
+  have hsel' : s'.selIds = [] := by simp [Src.selIds, hs', mopSel]
+  have hsop' : s'.opIds = futBuf s.fut := by simp [Src.opIds, hs', mopBuf, hfut]
+  have hcge := w.cs_ge i s hget
+  have hlsge := w.ls_ge i s hget
+  have hoge := w.op_ge i s hget
+  have hlhge := w.lh_ge i s hget
+  have h1 := h.1.1.dropOpt h.2.1 m.buf
+    (by intro c hc; exact w.ch_pos_of_op i s hget (c := c) (by rw [hsop, hc]; simp))
+    (ch' := fun a => w.opIds.count a + s'.opIds.count a - s.opIds.count a + w.handles.count a)
+    (lh' := w.opIds.length + s'.opIds.length - s.opIds.length + w.handles.length)
+    (by
+      intro a
+      have := hoge a
+      rw [hsop', hsop] at *
+      simp only [List.count_append, World.ch] at *
+      omega)
+    (by
+      rw [hsop', hsop] at *
+      simp only [List.length_append] at *
+      omega)
+  obtain ⟨hr2, hk2, hn2, _, _, hp2⟩ := PoolInv.resetGuards m.guards _ _ _ _ _ h1.2.2.2.2 h1.1
+    (by intro a; have := hcge a; rw [hsel] at this; exact this)
+    (by rw [hsel, List.length_map] at hlsge; exact hlsge)
+  refine ⟨?_, hr2, by show ((w.pool.dropOpt m.buf).resetGuards m.guards).kind = k; rw [hk2, h1.2.1, h.2.2]⟩
+  refine Inv.mkSet (w := w) i s s' _ w.handles hget h.1.2.1 hr2 (hp2.congr ?_ (fun _ => rfl) ?_ rfl)
+  · intro a; rw [hsel', hsel]; simp
+  · rw [hsel', hsel]; simp
+
+theorem Inv.evDstream {w : World} (h : Inv w) (i : Nat) : Inv (evDstream w i).1 := by
+  unfold Pool.evDstream
+  split
+  · exact h
+  · rename_i s hv
+    obtain ⟨hr, hget⟩ := validSrc_some hv
+    split
+    · exact h
+    · rename_i st hs
+      simp only
+      have hmop' : ({ s with strm := none } : Src).mop = none := rfl
+      unfold Pool.dropStrm
+      split
+      · rename_i m hop
+        have hs' : s.strm = some { len := st.len, op := some (some m) } := by
+          rw [hs]; obtain ⟨len, op⟩ := st; simp only at hop; rw [hop]
+        exact ((h.live hr).dropMOp i s { s with strm := none } st.len m hget hs' hmop' rfl).1
+      · rename_i hop
+        have hmop : s.mop = none := by
+          unfold Src.mop; rw [hs]
+          obtain ⟨len, op⟩ := st
+          cases op with
+          | none => rfl
+          | some o =>
+            cases o with
+            | none => rfl
+            | some m => exact absurd rfl (hop m)
+        refine h.of_sameTok (sameTok_setSrc w i s _ hget ?_ ?_) rfl h.2.1 ?_
+        · simp [Src.selIds, hmop, hmop']
+        · simp [Src.opIds, hmop, hmop']
+        · intro hr'; rw [hr] at hr'; cases hr'
+
+/-- everything a source holds goes back to the pool when its future and stream are dropped -/
+theorem PoolInv.dropSrc (s : Src) (p : Pool) (c0 h0 : Nat → Nat) (ls0 lh0 : Nat)
+    (h : PoolInv p (fun a => c0 a + s.selIds.count a) (fun a => h0 a + s.opIds.count a)
+      (ls0 + s.selIds.length) (lh0 + s.opIds.length)) (hr : p.released = false) :
+    (p.dropSrc s).released = false ∧ (p.dropSrc s).kind = p.kind ∧ PoolInv (p.dropSrc s) c0 h0 ls0 lh0 := by
+  unfold Pool.dropSrc
+  -- first the future's buffer
+  have h1 : (p.dropFutOpt s.fut).released = false ∧ (p.dropFutOpt s.fut).kind = p.kind ∧
+      PoolInv (p.dropFutOpt s.fut) (fun a => c0 a + s.selIds.count a) (fun a => h0 a + (mopBuf s.mop).count a)
+        (ls0 + s.selIds.length) (lh0 + (mopBuf s.mop).length) := by
+    cases hf : s.fut with
+    | none =>
+      refine ⟨hr, rfl, h.congr (fun _ => rfl) ?_ rfl ?_⟩
+      · intro a; simp [Src.opIds, hf, futBuf]
+      · simp [Src.opIds, hf, futBuf]
+    | some f =>
+      have hsop : s.opIds = f.buf.toList ++ mopBuf s.mop := by simp [Src.opIds, hf, futBuf]
+      have := h.dropOpt hr f.buf
+        (by intro c hc; simp only [hsop, hc, Option.toList, List.count_append, count_singleton_ind, ind_self]; omega)
+        (ch' := fun a => h0 a + (mopBuf s.mop).count a) (lh' := lh0 + (mopBuf s.mop).length)
+        (by intro a; simp only [hsop, List.count_append]; omega)
+        (by simp only [hsop, List.length_append]; omega)
+      exact ⟨this.1, this.2.1, this.2.2.2.2⟩
+  obtain ⟨hr1, hk1, hp1⟩ := h1
+  generalize p.dropFutOpt s.fut = p1 at *
+  cases hst : s.strm with
+  | none =>
+    have hmop : s.mop = none := by simp [Src.mop, hst]
+    simp only [Src.selIds, hmop, mopSel, mopBuf, List.count_nil, List.length_nil, Nat.add_zero] at hp1
+    exact ⟨hr1, hk1, hp1⟩
+  | some st =>
+    show (p1.dropStrm st).released = false ∧ (p1.dropStrm st).kind = p.kind ∧ PoolInv (p1.dropStrm st) c0 h0 ls0 lh0
+    unfold Pool.dropStrm
+    split
+    · rename_i m hop
+      have hs' : s.strm = some { len := st.len, op := some (some m) } := by
+        rw [hst]; obtain ⟨len, op⟩ := st; simp only at hop; rw [hop]
+      have hmop : s.mop = some m := Src.mop_of_strm hs'
+      simp only [Src.selIds, hmop, mopSel, mopBuf] at hp1
+      unfold Pool.dropMOp
+      have h2 := hp1.dropOpt hr1 m.buf
+        (by intro c hc; simp only [hc, Option.toList, count_singleton_ind, ind_self]; omega)
+        (ch' := h0) (lh' := lh0) (fun _ => rfl) rfl
+      obtain ⟨hr3, hk3, _, _, _, hp3⟩ := PoolInv.resetGuards m.guards _ _ _ _ _ h2.2.2.2.2 h2.1
+        (by intro a; omega) (by simp)
+      refine ⟨hr3, by rw [hk3, h2.2.1, hk1], hp3.congr ?_ (fun _ => rfl) ?_ rfl⟩
+      · intro a; simp
+      · simp
+    · rename_i hop
+      have hmop : s.mop = none := by
+        unfold Src.mop; rw [hst]
+        obtain ⟨len, op⟩ := st
+        cases op with
+        | none => rfl
+        | some o =>
+          cases o with
+          | none => rfl
+          | some m => exact absurd rfl (hop m)
+      simp only [Src.selIds, hmop, mopSel, mopBuf, List.count_nil, List.length_nil, Nat.add_zero] at hp1
+      exact ⟨hr1, hk1, hp1⟩
+
+theorem PoolInv.dropSrcs : ∀ (l : List Src) (p : Pool) (c0 h0 : Nat → Nat) (ls0 lh0 : Nat),
+    PoolInv p (fun a => c0 a + (l.flatMap Src.selIds).count a) (fun a => h0 a + (l.flatMap Src.opIds).count a)
+      (ls0 + (l.flatMap Src.selIds).length) (lh0 + (l.flatMap Src.opIds).length) → p.released = false →
+    (p.dropSrcs l).released = false ∧ (p.dropSrcs l).kind = p.kind ∧ PoolInv (p.dropSrcs l) c0 h0 ls0 lh0
+  | [], p, c0, h0, ls0, lh0, h, hr => by
+    refine ⟨hr, rfl, ?_⟩
+    simpa [Pool.dropSrcs] using h
+  | s :: rest, p, c0, h0, ls0, lh0, h, hr => by
+    have h1 := PoolInv.dropSrc s p (fun a => c0 a + (rest.flatMap Src.selIds).count a)
+      (fun a => h0 a + (rest.flatMap Src.opIds).count a)
+      (ls0 + (rest.flatMap Src.selIds).length) (lh0 + (rest.flatMap Src.opIds).length)
+      (h.congr
+        (by intro a; simp only [List.flatMap_cons, List.count_append]; omega)
+        (by intro a; simp only [List.flatMap_cons, List.count_append]; omega)
+        (by simp only [List.flatMap_cons, List.length_append]; omega)
+        (by simp only [List.flatMap_cons, List.length_append]; omega)) hr
+    have h2 := PoolInv.dropSrcs rest (p.dropSrc s) c0 h0 ls0 lh0 h1.2.2 h1.1
+    exact ⟨h2.1, by show ((p.dropSrc s).dropSrcs rest).kind = p.kind; rw [h2.2.1, h1.2.1], h2.2.2⟩
+
+theorem Inv.evRelease {w : World} (h : Inv w) : Inv (evRelease w).1 := by
+  unfold Pool.evRelease
+  split
+  · exact h
+  · rename_i hr
+    have hr : w.pool.released = false := by simpa using hr
+    have h1 := PoolInv.dropSrcs w.srcs w.pool (fun _ => 0) (fun a => w.handles.count a) 0 w.handles.length
+      (h.1.congr
+        (by intro a; simp [World.cs, World.selIds])
+        (by intro a; simp only [World.ch, World.opIds]; omega)
+        (by simp [World.selIds])
+        (by simp only [World.opIds]; omega)) hr
+    have h2 := h1.2.2.release h1.1
+    refine ⟨h2.congr ?_ ?_ ?_ ?_, h.2.1, fun _ => rfl⟩
+    · intro a; simp [World.cs, World.selIds]
+    · intro a; simp [World.ch, World.opIds]
+    · simp [World.selIds]
+    · simp [World.opIds]
 
 
 end Compio.Pool
